@@ -40,9 +40,24 @@ for name in sorted(os.listdir(os.path.join(HERE, "seeded"))):
         rows.append((name, prop, "ok", caught))
     finally:
         subprocess.run(["git", "-C", "/repo", "worktree", "remove", "--force", wt], capture_output=True)
+for name, prop, st, caught in rows:
+    print(name, prop, st if st != "ok" else "; ".join(f"{c}: rc={v['rc']} ({v['violations']} sig)" for c, v in caught.items()))
+# the table is always rebuilt from every meta.json (so partial re-runs do not lose rows)
 with open(os.path.join(HERE, "seeded", f"RESULTS-{tier}.md"), "w") as fh:
-    fh.write(f"# Seeded changes vs checks ({tier} tier)\n\nrc 1 = violation reported (caught), rc 0 = missed, rc 2 = inconclusive.\n\n| change | breaks | " + "result |\n|---|---|---|\n")
-    for name, prop, st, caught in rows:
-        cell = st if st != "ok" else "; ".join(f"{c}: rc={v['rc']} ({v['violations']} sig)" for c, v in caught.items())
-        fh.write(f"| {name} | {prop} | {cell} |\n")
-        print(name, prop, cell)
+    fh.write(f"# Seeded changes vs checks ({tier} tier)\n\nEach change was produced by a sub-agent that saw only the property text and a scratch worktree, "
+             "confirmed (applies, 193/193 pinned tests pass, demo fails with / passes without), and run against the check of its own property "
+             "and related checks in a scratch worktree (VERIF_REPO).  rc 1 = VIOLATION reported (caught), rc 0 = not reported, rc 2 = inconclusive.\n\n"
+             "| change | breaks | own check | related checks | first signature reported |\n|---|---|---|---|---|\n")
+    for name in sorted(os.listdir(os.path.join(HERE, "seeded"))):
+        mp = os.path.join(HERE, "seeded", name, "meta.json")
+        if not os.path.exists(mp):
+            continue
+        meta = json.load(open(mp))
+        cb = meta.get("caught_by", {}).get(tier)
+        if not cb:
+            fh.write(f"| {name} | {meta['breaks_property']} | not run | | |\n")
+            continue
+        prop = meta["breaks_property"]
+        own = cb.get(prop, {})
+        rel = "; ".join(f"{c} rc={v['rc']}" for c, v in cb.items() if c != prop)
+        fh.write(f"| {name} | {prop} | rc={own.get('rc')} ({own.get('violations')} signatures) | {rel} | `{own.get('first', '')[:150].replace('|', '/')}` |\n")
